@@ -160,6 +160,9 @@ class Ctx:
                 f"KNOWN-FINDING: property={self.pid} {fid}: {f['title']} "
                 f"({len(cases)} case(s) reproduced, e.g. {json.dumps(cases[0], default=repr)[:300]})"
             )
+        import glob
+        for old in glob.glob(os.path.join(VERIF, "replays", f"{self.pid}_*.json")):
+            os.remove(old)
         hist: dict = {}
         for v in self.violations:
             k = f"{v.get('kind')}|{v.get('sig')}"
